@@ -31,6 +31,70 @@ def graphstream_scenarios(tier: str):
     return out
 
 
+def stream_scenarios():
+    """TripleStream / QuadStream statement by statement: the unencodable term at every slot, top level or nested in a quoted triple,
+    with the slots before it repeated from the previous statement or fresh; the caller then carries on with statements that use
+    the entries the rejected statement's earlier terms introduced."""
+    I = lambda p, n: ("iri", p + n)  # noqa: E731
+    first = (I("a/", "x"), I("a/", "y"), I("b/", "x"))
+    new = (I("c/", "s"), I("d/", "p"), I("e/", "o"))
+    bads = {"unsupported-term": ("bad",), "typed-literal-no-datatype-table": ("lit", "1", "", "d:a")}
+    out = []
+    for quad in (False, True):
+        for cause, bad in bads.items():
+            for slot in range(4 if quad else 3):
+                for nested in ("no", "qt-second", "qt-third", "qt-deep"):
+                    if nested != "no" and slot in (1, 3):
+                        continue
+                    for before in ("repeated", "fresh"):
+                        fresh_inner = (I("f/", "q1"), I("g/", "q2"))
+                        if nested == "no":
+                            term = bad
+                        elif nested == "qt-second":
+                            term = ("qt", fresh_inner[0], bad, fresh_inner[1])
+                        elif nested == "qt-third":
+                            term = ("qt", fresh_inner[0], fresh_inner[1], bad)
+                        else:
+                            term = ("qt", fresh_inner[0], fresh_inner[1], ("qt", I("h/", "q3"), I("a/", "y"), bad))
+                        base = list(first if before == "repeated" else new) + ([("dg",)] if quad else [])
+                        st0 = tuple(list(first) + ([("dg",)] if quad else []))
+                        rej = tuple(base[:slot] + [term] + base[slot + 1:])
+                        carry = [tuple([fresh_inner[0], I("d/", "p"), fresh_inner[1]] + ([I("h/", "q3")] if quad else [])),
+                                 tuple(list(new) + ([("dg",)] if quad else [])),
+                                 st0]
+                        out.append({"stream": "QuadStream" if quad else "TripleStream", "cause": cause, "slot": "spog"[slot], "nested": nested,
+                                    "before": before, "statements": [st0, rej] + carry})
+        for cut in range(0, 4 if quad else 3):
+            st0 = tuple(list(first) + ([("dg",)] if quad else []))
+            out.append({"stream": "QuadStream" if quad else "TripleStream", "cause": "malformed-tuple", "slot": "spog"[cut], "nested": "no", "before": "fresh",
+                        "statements": [st0, tuple(list(new) + ([("dg",)] if quad else []))[:cut], tuple(list(new) + ([I("c/", "s")] if quad else [])), st0]})
+    return out
+
+
+def run_stream_scenario(sc):
+    quad = sc["stream"] == "QuadStream"
+    cfg = impl.default_cfg(integ="generic", sclass=("quad" if quad else "triple"), ltype=(2 if quad else 1), delimited=True, frame_size=10**6, preset=(16, 8, 0))
+    stream = impl.make_stream(cfg)
+    stream.enroll()
+    frames, accepted, raised = [], [], []
+    for i, st in enumerate(sc["statements"]):
+        tt = [writer.to_impl_term(t, "generic") for t in st]
+        try:
+            fr = stream.quad(tt) if quad else stream.triple(tt)
+            if fr:
+                frames.append(fr)
+            accepted.append(tuple(st))
+        except Exception as ex:  # noqa: BLE001
+            raised.append((i, type(ex).__name__))
+    last = stream.flow.to_stream_frame()
+    if last:
+        frames.append(last)
+    out = io.BytesIO()
+    for fr in frames:
+        impl.write_delimited(fr, out)
+    return out.getvalue(), accepted, raised
+
+
 def run_graph_scenario(sc):
     cfg = impl.default_cfg(integ="generic", sclass="graph", ltype=2, delimited=True, frame_size=10**6, preset=(8, 2, 0))
     stream = impl.make_stream(cfg)
@@ -115,6 +179,17 @@ def main(tier: str) -> int:
                                      "raised": res["rejected"], "accepted": res["accepted"]}})
             traces.append({"id": len(cases) - 1, "rows": terms.jrows_of_frames(frames), "mode": "seq", "prefix": True,
                            "exp": [terms.jitem(terms.norm_item(it)) for it in res["accepted"]]})
+    # TripleStream / QuadStream: enumerated slot x nesting x cause x (earlier slots repeated or fresh)
+    for sc in stream_scenarios():
+        data, accepted, raised = run_stream_scenario(sc)
+        key = {"stream": sc["stream"], "cause": sc["cause"], "slot": sc["slot"], "nested": sc["nested"] != "no"}
+        distinct.add((sc["stream"], sc["cause"], sc["slot"], sc["nested"], sc["before"]))
+        frames = wire.dec_stream(data, delimited=True)
+        cases.append({"key": key, "model_bad": None, "res": {"rejected": raised, "accepted": accepted},
+                      "replay": {"scenario": sc, "raised": raised, "accepted": accepted}})
+        traces.append({"id": len(cases) - 1, "rows": terms.jrows_of_frames(frames), "mode": "seq", "prefix": True,
+                       "exp": [terms.jitem(terms.norm_item(it)) for it in accepted]})
+        n_rejecting += 1
     # GraphStream, graph by graph
     for sc in graphstream_scenarios(tier):
         data, accepted, raised = run_graph_scenario(sc)
